@@ -52,6 +52,11 @@ pub fn verif_call_task<S, D, F: ChildTask<S, D>>(child_task: F, env: Env<S>, dat
                 # only through the fork itself
                 all_eq('final(self)', 'old(self)'), 'final(self).system == old(self).system', 'r.1 == shared_data',
             ]}),
+        # Env::clone_with_system: the copy of the environment a simulated child (or any caller) gets consists of clones of all the
+        # fields, on top of the system it is given
+        (LIB, ['impl<S> Env<S>#0', 'fn clone_with_system'], {'ret': 'r',
+            'token_rewrites': [('self . arg0 . clone ( )', 'verif_clone_string(&self.arg0)'), ('self . builtins . clone ( )', 'verif_clone_builtins(&self.builtins)')],
+            'ensures': [all_eq('r', 'self'), 'r.system == system']}),
         ('@raw', '}\n'),
     ],
 }
